@@ -185,4 +185,16 @@ CHECKS = {
   'note': TB,
   'technique': 'Coq emission theorems for the compact interpreter + cross-variant differential harness over the generated type grammar',
  },
+ 'C03': {
+  'text': ("Proof (Coq): the output of the emission discipline is the compact text of a token sequence generated by the grammar scalar | [ values ] | { members } "
+           "(no dangling comma by construction), and that sequence is bracket-balanced at every prefix for EVERY value whose leaves are scalar tokens; every float "
+           "operation of the four interpreters (25 float64 + 25 float32 clauses, bodies byte-identical across the interpreters) carries the NaN/Inf guard (translator "
+           "fact, re-read on every run; the float32 guard is a recorded fix). Leaf well-formedness is C16 (integers) and C17 (string literals). Observed: C01 type grammar "
+           "extended with non-finite floats of both widths in every position, arbitrary json.Number strings, RawMessage / MarshalJSON / MarshalText returning arbitrary "
+           "bytes; 11 entry point / option combinations; a successful result must be exactly one RFC 8259 value (encoding/json.Valid, nothing around it but the Encoder's "
+           "newline), valid UTF-8 while normalisation is on, and what encoding/json refuses as unrepresentable must be refused. Partial: the parser-completeness theorem "
+           "(parse_json (marshal v) = tokens) is not proved; validity of composed output is observed with encoding/json.Valid."),
+  'note': TB,
+  'technique': 'Coq grammar/balance theorems over the emission model + translator float-guard facts + validity harness over generated types with unrepresentable values',
+ },
 }
